@@ -359,7 +359,12 @@ def d(ck: Check) -> None:
     VAL = f"idx({sp_p},elem({sp_p}))"
     FIX = f"P(elem({sp_p}),{{0:F,1:T}}@{VAL})"
     INV = f"P(elem({sp_p}),{{0:T,1:F}}@{VAL})"
+    # an independent copy of the net: deepcopy, or the graph's own copy() (new adjacency and attribute dictionaries; the
+    # restriction only removes nodes)
     R = f"copy.deepcopy({pn_p})"
+    for r_ in own_walk(g.f.node):
+        if isinstance(r_, ast.Return) and r_.value is not None and se.val(r_.value, g.cfgn(r_)) == f"{pn_p}.copy()":
+            R = f"{pn_p}.copy()"
     both = logic.And(logic.B(f"in:{FIX}|{R}"), logic.B(f"in:{INV}|{R}"))
     removed = []   # (what, condition, cfg node)
     for c in own_walk(g.f.node):
